@@ -1,11 +1,11 @@
 """C07 — the store can always reopen what it wrote (E2 reopen profiles + E4 crash images)."""
 from . import crashwl as W
 
-PARAM_SECTIONS = ["wal"]
+PARAM_SECTIONS = ["wal", "vlog"]
 from . import e2gen as G
 from . import crashproto as P
 
-MODEL_TARGETS = ["theories/Spec/Machine.vo", "theories/Crash/Proto.vo"]
+MODEL_TARGETS = ["theories/Spec/Machine.vo", "theories/Crash/Proto.vo", "theories/Lsm/VlogOpen.vo"]
 TRUSTED = __import__("vlib.c02", fromlist=["TRUSTED"]).TRUSTED + [
     "clean-reopen part: API histories with reopen placed anywhere, compared with the specification machine (reopen = identity on committed data)"]
 ASSUMPTIONS = __import__("vlib.c02", fromlist=["ASSUMPTIONS"]).ASSUMPTIONS
@@ -22,6 +22,45 @@ PROFILES = [
 def nontrivial(lines, exp):
     ops = [l.split()[1] for l in lines]
     return ops.count("reopen") >= 1 and "compact" in ops and ops.count("commit") >= 2
+
+
+def header_sweep(ctx, r):
+    """value-log file header: every prefix of a header (what a crash or a failed write leaves of a new file), whole
+    headers with one field altered, headers followed by bytes — model (Lsm/VlogOpen.v vopen_file + vwriter_open) vs
+    VLog::new on a directory holding that one file.  A prefix of a good header that refuses the directory is a violation
+    whatever the model says (class torn_vlog_file_blocks_reopen)."""
+    import random
+    from . import common as C
+    rng = random.Random(ctx["seed"] * 31 + 7)
+    cases = []
+    ids = [1, 2, 7, 300, 65536 + 5] + [rng.randrange(1, 2 ** 32) for _ in range(3 if ctx["tier"] == "quick" else 40)]
+    for fid in ids:
+        good = bytes.fromhex("564c4f47") + (1).to_bytes(2, "big") + fid.to_bytes(4, "big") + rng.randrange(2 ** 40).to_bytes(8, "big") + (4096).to_bytes(8, "big") + b"\0" + b"\0" * 4
+        for n in range(0, 32):
+            cases.append((fid, good[:n], "prefix"))
+        cases.append((fid, good + bytes(rng.randrange(256) for _ in range(rng.randrange(1, 40))), "header+bytes"))
+        for _ in range(6 if ctx["tier"] == "quick" else 40):
+            b = bytearray(good + bytes(rng.randrange(256) for _ in range(rng.choice([0, 0, 5, 20]))))
+            i = rng.randrange(0, 12)
+            b[i] ^= 1 << rng.randrange(8)
+            cases.append((fid, bytes(b[:rng.choice([len(b), len(b), rng.randrange(1, len(b) + 1)])]), "altered"))
+    script = ["vp hopen %d %s" % (fid, b.hex() or "-") for fid, b, _ in cases]
+    sides = ("impl", "model") if ctx["have_model"] else ("impl",)
+    out = C.run_pairs([script], sides=sides)[0]
+    impl = out["impl"][0]
+    model = out["model"][0] if "model" in out else [None] * len(script)
+    kinds = {}
+    for (fid, b, kind), cmd, a, m in zip(cases, script, impl + ["no-answer"] * len(script), model + [None] * len(script)):
+        key = "%s:%s" % (kind, a.split(":")[0])
+        kinds[key] = kinds.get(key, 0) + 1
+        if kind == "prefix" and a == "refuse":
+            r["violations"].append(("a value-log file holding the first %d bytes of its header makes the open refuse the directory (class torn_vlog_file_blocks_reopen)" % len(b),
+                                    "# property=C07\n# value-log header sweep (tools/vlib/c07.py header_sweep); replay: feed the line to harness/target/release/skv_harness and to driver/skv_driver\n%s\n# IMPL %s\n# MODEL %s\n" % (cmd, a, m)))
+        elif m is not None and a != m:
+            r["disagreements"].append("value-log header open: `%s` IMPL %s MODEL %s" % (cmd, a, m))
+    r["coverage"]["vlog_header_open"] = dict(cases=len(cases), outcomes=kinds)
+    r["coverage"]["evaluations"] += len(cases) * len(sides)
+    return r
 
 
 def explore(ctx):
@@ -42,6 +81,7 @@ def explore(ctx):
                    "deep levels, levels emptied by tombstone compaction), compared with the specification machine; (2) " + cc["rule"] +
                    " — here the verdict is that every image opens (twice) without error")
     cov["samples"] = cov.get("samples", []) + cc["samples"][:1]
+    r = header_sweep(ctx, r)
     return r
 
 
